@@ -10,20 +10,43 @@ import (
 )
 
 // parseTabs decodes `tabs=<namehex>:<datahex or ->,...` into a Go map (order irrelevant).
+// All table bodies are adjacent sub-slices of ONE buffer (followed by a 0xEE tail), so that every
+// slice has spare capacity over live data of the next table: a writer that appends to or pads a
+// caller's slice in place corrupts its neighbour, which shows in the written bytes (V header.write,
+// D header.wf) and in the map afterwards (V header.tables).
 func parseTabs(f Fields) map[string][]byte {
-	m := map[string][]byte{}
+	type ent struct {
+		name string
+		data []byte
+		null bool
+	}
+	var ents []ent
+	total := 0
 	for _, t := range f.List("tabs", ",") {
 		i := strings.IndexByte(t, ':')
 		name := string(mustHex(t[:i]))
 		if t[i+1:] == "-" {
-			m[name] = nil
+			ents = append(ents, ent{name, nil, true})
 		} else {
 			d := mustHex(t[i+1:])
-			if d == nil {
-				d = []byte{}
-			}
-			m[name] = d
+			ents = append(ents, ent{name, d, false})
+			total += len(d)
 		}
+	}
+	image := make([]byte, total+8)
+	for i := range image {
+		image[i] = 0xEE
+	}
+	m := map[string][]byte{}
+	pos := 0
+	for _, e := range ents {
+		if e.null {
+			m[e.name] = nil
+			continue
+		}
+		copy(image[pos:], e.data)
+		m[e.name] = image[pos : pos+len(e.data)] // cap reaches to the end of the image
+		pos += len(e.data)
 	}
 	return m
 }
